@@ -48,21 +48,21 @@ Proof.
   unfold misaligned.
   destruct (Qeq_bool r 0) eqn:Hr0.
   - reflexivity.
-  - destruct (Qle_bool (/ (r * 100)) (Qabs (d * r - inject_Z k))) eqn:Hm; [|reflexivity].
+  - destruct (Qle_bool (/ (r * 100)) (Qabs ((d * r - inject_Z k) / r))) eqn:Hm; [|reflexivity].
     exfalso. apply Qle_bool_iff in Hm.
-    assert (Hz : Qabs (d * r - inject_Z k) == 0).
-    { assert (He : d * r - inject_Z k == 0) by lra. rewrite He. reflexivity. }
+    assert (Hz : Qabs ((d * r - inject_Z k) / r) == 0).
+    { assert (He : d * r - inject_Z k == 0) by lra. rewrite He. unfold Qdiv. rewrite Qmult_0_l. reflexivity. }
     rewrite Hz in Hm.
     assert (Hp : 0 < / (r * 100)). { apply Qinv_lt_0_compat. lra. }
     lra.
 Qed.
 
 (** What an accepted duration satisfies: the count is the rounded product, it is below u32::MAX,
-    and the misalignment is under the tolerance 1 / (100 rate). *)
+    and the misalignment (in seconds) is under the tolerance 1 / (100 rate). *)
 Lemma sample_count_sound (d r : Q) (n : N) :
   sample_count d r = inr n ->
   Z.of_N n = round_half_away (d * r) /\ (Z.of_N n < U32_MAX)%Z /\
-  (r == 0 \/ Qabs (d * r - inject_Z (Z.of_N n)) < / (r * 100)).
+  (r == 0 \/ Qabs ((d * r - inject_Z (Z.of_N n)) / r) < / (r * 100)).
 Proof.
   unfold sample_count. intros H.
   destruct (round_half_away (d * r) <? 0)%Z eqn:H1; [discriminate|].
@@ -72,6 +72,28 @@ Proof.
   unfold misaligned in Hm. destruct (Qeq_bool r 0) eqn:Hr0.
   - left. now apply Qeq_bool_iff.
   - right. apply Qnot_le_lt. intros Hle. apply Qle_bool_iff in Hle. congruence.
+Qed.
+
+(** For a positive rate the tolerance is 1% of a sample. *)
+Lemma tolerance_one_percent (x r : Q) : 0 < r -> (Qabs (x / r) < / (r * 100) <-> Qabs x < 1 # 100).
+Proof.
+  intros Hr.
+  assert (Hinv : 0 < / r) by now apply Qinv_lt_0_compat.
+  assert (E1 : Qabs (x / r) == Qabs x * / r).
+  { unfold Qdiv. rewrite Qabs_Qmult. rewrite (Qabs_pos (/ r)); [reflexivity | lra]. }
+  assert (E2 : / (r * 100) == (1 # 100) * / r).
+  { rewrite Qinv_mult_distr. setoid_replace (/ 100) with (1 # 100) by reflexivity. ring. }
+  rewrite E1, E2. split; intros H.
+  - apply (Qmult_lt_r _ _ (/ r)); assumption.
+  - apply (Qmult_lt_r _ _ (/ r)); assumption.
+Qed.
+
+Lemma sample_count_tolerance (d r : Q) (n : N) :
+  0 < r -> sample_count d r = inr n -> Qabs (d * r - inject_Z (Z.of_N n)) < 1 # 100.
+Proof.
+  intros Hr H. destruct (sample_count_sound d r n H) as [_ [_ [H0|Ht]]].
+  - lra.
+  - now apply (tolerance_one_percent _ r Hr).
 Qed.
 
 Local Close Scope Q_scope.
